@@ -125,6 +125,8 @@ pub struct Cfg {
     pub inexact_iter: bool,
     /// the iterator handed to the constructor panics after yielding this many items
     pub iter_panic_at: Option<usize>,
+    /// drain like an executor: after a Pending on which the task waker was not invoked, nobody polls again
+    pub executor_drain: bool,
 }
 
 impl Cfg {
@@ -154,6 +156,7 @@ impl Cfg {
             focus_strict: false,
             inexact_iter: false,
             iter_panic_at: None,
+            executor_drain: false,
         }
     }
     pub fn limit(&self) -> usize {
@@ -346,7 +349,7 @@ impl<'a> Run<'a> {
                 let live = c.accepted && c.drops == 0 && !c.completed;
                 if alive && live && cfg.ops & ops::COMPLETE != 0 {
                     match c.mode {
-                        Mode::Gate | Mode::Relay | Mode::YieldInf if !c.released => {
+                        Mode::Gate | Mode::Relay | Mode::YieldInf | Mode::YieldGate if !c.released => {
                             m.push((Op::Complete(id), costly(ops::COMPLETE)))
                         }
                         Mode::Stream if !c.omega && c.last_answer == Ans::Pending && !c.fed => {
@@ -1007,6 +1010,13 @@ impl<'a> Run<'a> {
                         format!("{:?}: the last poll polled {} child(ren), returned Pending with ready child(ren) {:?} still un-polled, and did not wake its task: the rest is forgotten", cfg.kind, n, &owed[..owed.len().min(4)]),
                     );
                 }
+                if !owed.is_empty() && cfg.kind.is_merge() {
+                    w.violate(
+                        "C11",
+                        "sleeps-on-unpolled-source",
+                        format!("{:?}: the merge returned Pending without waking its task while source(s) {:?} are queued and un-polled: an executor sleeps now and their items are never yielded", cfg.kind, &owed[..owed.len().min(4)]),
+                    );
+                }
                 if !owed.is_empty() {
                     let lw = w.last_poll_waker;
                     w.violate(
@@ -1193,6 +1203,11 @@ impl<'a> Run<'a> {
                     self.record_hint("drain");
                     if matches!(self.last_out_kind, 2 | 4 | 5 | 6 | 7) {
                         finished = true;
+                        break;
+                    }
+                    if cfg.executor_drain && self.last_out_kind == 1 && !w(|w| w.last_poll_woken) {
+                        // every source has been fed and woken; the task was not woken by this poll: an
+                        // executor would now sleep forever
                         break;
                     }
                 }
